@@ -398,11 +398,73 @@ class ChfObs:
         return {k: v + r.get(k, 0) for k, v in b.items()}
 
 
+def _race_scan(res, pid, ops, gmp, what="requests of one subscriber in flight together"):
+    """what the Go run time said about the last run of the conc stream: race-detector reports, fatal errors"""
+    se = core.LAST_STDERR.get("conc", "")
+    if "DATA RACE" in se:
+        i = se.index("DATA RACE")
+        res.violation("oracle", "%s: the Go race detector reported a data race (GOMAXPROCS=%d; %s)" % (pid, gmp, what),
+                      ops[:400] + ["# race report:"] + ["# " + l for l in se[max(0, i - 20):i + 3500].split("\n")])
+    if "fatal error" in se or "concurrent map" in se:
+        i = se.find("fatal error")
+        res.violation("oracle", "%s: the process crashed (GOMAXPROCS=%d; %s): %s" % (pid, gmp, what, se[i:i + 200].replace("\n", " ")),
+                      ops[:400] + ["# " + l for l in se[max(0, i):i + 2500].split("\n")])
+
+
+def _hammer_check(res, ops, impl, pid):
+    """`conc hammer` lines: loops of requests by several goroutines on one subscriber"""
+    for op, im in zip(ops, impl):
+        t = op.split(" ")
+        if len(t) < 5 or t[1] != "hammer":
+            continue
+        res.evaluations += 1
+        res.dist["hammer:" + t[2]] += 1
+        d = dict(x.split("=", 1) for x in im.split(" ") if "=" in x)
+        hx = lambda v: bytes.fromhex(v.split(":", 1)[1]).decode(errors="replace") if ":" in v else ""
+        if im in ("crash", "panic") or "done" not in d:
+            res.violation("oracle", "%s: the process crashed while the requests of roles %s were in flight (%s)" % (pid, t[2], im[:60]), [op, "# impl: " + im[:200]])
+            continue
+        if d["done"] != "1":
+            res.violation("oracle", "%s: concurrent requests of one subscriber (roles %s) did not all return within 90 s (deadlock)" % (pid, t[2]), [op, "# impl: " + im])
+            continue
+        ok = True
+        if not d.get("dup", "0").startswith("0"):
+            ok = False
+            res.violation("oracle", "%s: a create returned the reference %s while the session it had been handed out for before was not released "
+                          "(%s times; requests in flight: %s)" % (pid, hx(d["dup"]), d["dup"].split(":")[0], t[2]), [op, "# impl: " + im])
+        if not d.get("bad", "0").startswith("0"):
+            ok = False
+            res.violation("oracle", "%s: %s (%s such answers; requests in flight: %s)" % (pid, hx(d["bad"]), d["bad"].split(":")[0], t[2]), [op, "# impl: " + im])
+        if d.get("left", "0") != "0":
+            ok = False
+            res.violation("oracle", "%s: after every session had been released, %s session reference(s) are still in the subscriber's session map" % (pid, d["left"]),
+                          [op, "# impl: " + im])
+        if ok:
+            res.traces_validated += 1
+            res.nontrivial.add(op)
+
+
+def _hammer_phase(ctx, res, pid, mode, replay_ops, race=True):
+    """the hammer lines of one family (conc stream, generator mode `mode`), on the race-detector build when there is one"""
+    if replay_ops is not None:
+        ops = [o for o in replay_ops if o.startswith("conc hammer ")]
+        if not ops:
+            return
+    else:
+        ops = core.harness_gen(ctx.harness, "conc", ctx.seed, 0, ctx.tier, ("-mode", mode))
+    h = (getattr(ctx, "harness_race", None) if race else None) or ctx.harness
+    res.extra["race_detector"] = bool(race and getattr(ctx, "harness_race", None))
+    for gmp in (4, 16):
+        impl = core.harness_run(h, "conc", ops, env_extra={"GOMAXPROCS": str(gmp), "GORACE": "halt_on_error=0"})
+        _race_scan(res, pid, [o for o in ops if " hammer " in o], gmp)
+        _hammer_check(res, ops, impl, pid)
+
+
 def _conc_phase(ctx, res, pid, mode, replay_ops, nq, nt):
     """batches of concurrent requests (conc stream, generator mode `mode`) judged by _conc_check for property pid"""
     if replay_ops is not None:
-        ops = [o for o in replay_ops if o.startswith("conc ")]
-        if not ops:
+        ops = [o for o in replay_ops if o.startswith("conc ") and not o.startswith("conc hammer ")]
+        if not [o for o in ops if o.startswith("conc go")]:
             return
     else:
         ops = core.harness_gen(ctx.harness, "conc", ctx.seed, n_for(ctx, nq, nt), ctx.tier, ("-mode", mode))
@@ -779,6 +841,9 @@ def explore_c12(ctx, res, replay_ops=None):
         prev_state = state
     # a reference can also become stale while the request naming it waits behind the release of its session
     _conc_phase(ctx, res, "C12", "stale", replay_ops, 30, 300)
+    # requests naming unknown references in loops next to creates, updates and releases of the same subscriber (race-detector build):
+    # each is answered 4xx, and the look-up itself must not disturb the requests it runs next to
+    _hammer_phase(ctx, res, "C12", "hammer-lookup", replay_ops)
     res.rule = ("chf histories in 'api' mode: 25% of updates/releases name an unknown, mistyped, foreign or stale (released) "
                 "reference or an unknown subscriber; recharges with well-formed, malformed and unknown path parameters; "
                 "oracle on the implementation's trace: status/Location/echo/timestamp per request, byte-identical state "
@@ -789,7 +854,7 @@ def explore_c12(ctx, res, replay_ops=None):
 
 import re  # noqa: E402
 
-PROPS["C12"] = dict(lean=["ChfVerif.Props.C12"], explore=explore_c12,
+PROPS["C12"] = dict(lean=["ChfVerif.Props.C12"], explore=explore_c12, race=True,
                     trusted=["gin routing/JSON rendering, openapi client (h2c notification) are modelled; the notification sink is part of the harness"])
 
 
@@ -868,6 +933,9 @@ def explore_c10(ctx, res, replay_ops=None):
     # first contact: several creates for a SUPI the CHF has never seen, in flight together; every acknowledged reference
     # must then designate its session (update 200, release 204)
     _conc_phase(ctx, res, "C10", "newsupi", replay_ops, 40, 400)
+    # creates that OpenCDR refuses (of another subscriber, of the same one) in loops next to pairs of sessions opened through the
+    # same consumer: every reference handed out must differ from those of the sessions not yet released, and designate its session
+    _hammer_phase(ctx, res, "C10", "hammer-refs", replay_ops, race=False)
     res.rule = ("chf histories in 'names' mode: SUPIs that are prefixes of one another (imsi-1, imsi-12, imsi-, imsi-1-), "
                 "consumer names ending in digits / empty / containing '-' (a1, a, '', 10, -1, smf-0), 2-4 sessions per subscriber, "
                 "interleaved updates and releases; oracle: every returned reference differs from all live ones, and usage sent "
@@ -1689,6 +1757,10 @@ def explore_c11(ctx, res, replay_ops=None):
                               sops[start:i + 1] + ["# impl: " + im[:160]])
             else:
                 res.traces_validated += 1
+    # --- "any order of requests" includes requests that overlap: requests naming unknown references in loops next to creates, updates
+    #     and releases of the same subscriber, on the race-detector build (an unsynchronised look-up in the session map is a fatal
+    #     "concurrent map read and map write" that no recovery middleware catches)
+    _hammer_phase(ctx, res, "C11", "hammer-lookup", replay_ops)
     res.rule = ("raw requests through the real router: a full ChargingDataRequest (all optional blocks present) with every single member "
                 "removed / null / {} / emptied, pairs of members removed (all pairs in thorough), random multi-member removals, 21 odd "
                 "subscriber identifiers, 25 MCC/MNC shapes, 13 bodies that are not a request object, 9 session references, 17 recharging "
@@ -1699,7 +1771,7 @@ def explore_c11(ctx, res, replay_ops=None):
                 "report with a trigger (never 5xx). non-trivial = request answered 4xx")
 
 
-PROPS["C11"] = dict(lean=["ChfVerif.Props.C11"], explore=explore_c11, gen=[gen_table("locksites", "LockSites.lean")],
+PROPS["C11"] = dict(lean=["ChfVerif.Props.C11"], explore=explore_c11, race=True, gen=[gen_table("locksites", "LockSites.lean")],
                     trusted=["gin's recovery middleware (a handler panic becomes a 500 and the process goes on) is modelled",
                              "the go/ast lock-site extractor harness/cmd/locksites.go; 'calls = 0' between Lock and the deferred unlock is syntactic",
                              "the status half is proved for the charging model's inputs only and explored for raw bodies (partial)"])
@@ -1855,16 +1927,9 @@ def explore_c09(ctx, res, replay_ops=None):
     procs = [4, 16] if ctx.tier == "quick" else [1, 2, 4, 8, 16]
     for gmp in procs:
         impl = core.harness_run(h, "conc", ops, env_extra={"GOMAXPROCS": str(gmp), "GORACE": "halt_on_error=0"})
-        se = core.LAST_STDERR.get("conc", "")
-        if "DATA RACE" in se:
-            i = se.index("DATA RACE")
-            res.violation("oracle", "C09: the Go race detector reported a data race (GOMAXPROCS=%d)" % gmp,
-                          ops[:400] + ["# race report:"] + ["# " + l for l in se[max(0, i - 20):i + 3000].split("\n")])
-        if "fatal error" in se or "concurrent map" in se:
-            i = se.find("fatal error")
-            res.violation("oracle", "C09: the process crashed (GOMAXPROCS=%d): %s" % (gmp, se[i:i + 200].replace("\n", " ")),
-                          ops[:400] + ["# " + l for l in se[max(0, i):i + 2000].split("\n")])
+        _race_scan(res, "C09", ops, gmp, "batches and loops of concurrent requests")
         _conc_extra(res, ops, impl, "C09")
+        _hammer_check(res, ops, impl, "C09")
         _conc_check(res, ops, impl, gmp, "C09")
     res.rule = ("batches of 2-5 (thorough: up to 16) requests released together through the real router, built with the Go race detector, under "
                 "GOMAXPROCS %s: k updates of one session; updates of two sessions + a release + a recharge notification of one subscriber; k creates "
